@@ -1,7 +1,7 @@
 (** * Driver2: the operation alphabet extended with counting, picking,
       structural queries and variable removal.  ([Driver.v] is kept as the
       alphabet of the first history theorems.) *)
-From DD Require Export Driver Sat Export.
+From DD Require Export Driver Sat Export IO.
 
 Inductive op2 :=
   | O1 (o : op)
@@ -17,7 +17,11 @@ Inductive op2 :=
   | OContains (u : Z)
   | OShutdown
   | OToNx (roots : list Z)
-  | OToDot (roots : option (list Z)).
+  | OToDot (roots : option (list Z))
+  | ODump (fid : nat) (roots : rootsC) (order : list positive) (vorder : list nat)
+  | OLoad (fid : nat) (levels : bool)
+  | ODumpManager (fid : nat) (vorder : list nat)
+  | OLoadManager (fid : nat).
 
 Definition vassign (m : gmap nat bool) : value :=
   VL ((fun k => VL [VN k; VB (default false (m !! k))]) <$>
@@ -38,6 +42,41 @@ Definition vgraph (g : xgraph) : value :=
       VL ((fun '(n, o) => VL [VZ (Z.pos n); match o with Some v => VN v | None => VU end])
             <$> x_labels g)].
 
+Record world2 := World2 {
+  w_mgrs : world;
+  w_files : gmap nat pfile;
+  w_mfiles : gmap nat mfile;
+}.
+Global Instance eta_world2 : Settable _ := settable! World2 <w_mgrs; w_files; w_mfiles>.
+Definition world2_empty : world2 := World2 ∅ ∅ ∅.
+
+Definition vroots (r : rootsC) : value :=
+  match r with
+  | RNone => VU
+  | RList l => VL (VZ <$> l)
+  | RDict d => VL ((fun '(k, u) => VL [VN k; VZ u]) <$> d)
+  end.
+
+(** operations on the file store; the result carries the new store *)
+Definition run_io (w : world2) (o : op2) : option (MS (value * world2)) :=
+  match o with
+  | ODump fid roots order vorder => Some (
+      pf <- dump_pickle roots order vorder ;;
+      ret (VU, w <| w_files ::= <[fid := pf]> |>))
+  | OLoad fid levels => Some (
+      pf <- of_opt EValue (w_files w !! fid) ;;
+      r <- load_pickle pf levels ;;
+      ret (vroots r, w))
+  | ODumpManager fid vorder => Some (
+      mf <- dump_manager vorder ;;
+      ret (VU, w <| w_mfiles ::= <[fid := mf]> |>))
+  | OLoadManager fid => Some (
+      mf <- of_opt EValue (w_mfiles w !! fid) ;;
+      load_manager mf ;;;
+      ret (VU, w))
+  | _ => None
+  end.
+
 Definition run_op2 (w : world) (o : op2) : MS value :=
   match o with
   | O1 o => run_op w o
@@ -57,10 +96,20 @@ Definition run_op2 (w : world) (o : op2) : MS value :=
   | OShutdown => r <- shutdown ;; ret (VB r)
   | OToNx roots => g <- to_nx roots ;; ret (vgraph g)
   | OToDot roots => g <- to_dot roots ;; ret (vgraph g)
+  | ODump _ _ _ _ | OLoad _ _ | ODumpManager _ _ | OLoadManager _ => raise EType
   end.
 
-Definition step2 (w : world) (m : nat) (o : op2) : world * res value :=
-  let s := default empty_st (w !! m) in
-  let '(r, s') := run_op2 w o s in
-  let s' := match o with O1 (OTape _) => s' | _ => s' <| tape := [] |> end in
-  (<[m := s']> w, r).
+Definition step2 (w : world2) (m : nat) (o : op2) : world2 * res value :=
+  let s := default empty_st (w_mgrs w !! m) in
+  match run_io w o with
+  | Some io =>
+      match io s with
+      | (Ok (v, w'), s') => (w' <| w_mgrs ::= <[m := s' <| tape := [] |>]> |>, Ok v)
+      | (Err e, s') => (w <| w_mgrs ::= <[m := s' <| tape := [] |>]> |>, Err e)
+      end
+  | None =>
+      let '(r, s') := run_op2 (w_mgrs w) o s in
+      let s' := match o with O1 (OTape _) => s' | _ => s' <| tape := [] |> end in
+      (w <| w_mgrs ::= <[m := s']> |>, r)
+  end.
+Definition world2_get (w : world2) (m : nat) : st := default empty_st (w_mgrs w !! m).
